@@ -18,11 +18,17 @@ def scenarios(quick):
         ([retry(2, dly=2), cb("c")], []),
         ([fb(), hg(1, 2), retry(1, dly=1)], []),
         ([retry(2, dly=2, rlf=True), fb(h=[cE("E2")])], []),
+        ([rl("r", 4, wait=9), retry(1, dly=1)], []),            # the limiter's wait is outside the retry policy
+        ([retry(2, dly=1), rl("r", 3, wait=9)], []),
+        ([cb("c"), rl("r", 4, wait=9), retry(1, dly=1)], []),
     ]
     T = 8 if quick else 12
     for st, extra in stacks:
         for coop in (True, False):
-            fns = [[fn(2, "R0", "E1", coop)] * 6]
+            fns = [[fn(2, "R0", "E1", coop)] * 6, [fn(1, "R1", None, True)] * 2]
+            if any(d["k"] == "rl" for d in st):
+                # another execution takes the first slot, so that execution 1 has to wait for its permit
+                extra = [start(2, 0)]
             for t in range(0, T):
                 for asyn in (False, True):
                     out.append(scenario(st, fns, extra + [start(1, 0, asyn), env("CtxCancel", t, 1)]))
